@@ -387,6 +387,9 @@ func seedFor(name string) uint64 {
 	h := fnv.New64a()
 	h.Write([]byte(name))
 	s := uint64(Seed())*1000003 + uint64(Shard())*7919 + h.Sum64()%100000
+	if Race() {
+		s += 500009 // the race shard explores other cases than shard 0
+	}
 	s = s%((1<<31)-1) + 1
 	return s
 }
